@@ -61,7 +61,7 @@ def build_ds(layout, with_coords=True, extra=None):
     holders = {}
     for a in layout["axes"]:
         for p, d in a["pos"]:
-            if with_coords:
+            if with_coords is True or (with_coords not in (True, False, None) and d in with_coords):
                 c[d] = ((d,), coord_values(p, a["n"]))
             else:
                 holders[f"holder_{d}"] = ((d,), np.zeros(a["n"] + POS_LEN[p]))
